@@ -3,6 +3,7 @@ package checks
 import (
 	"fmt"
 	"math/rand"
+	"sort"
 	"strings"
 
 	"verif/harness/core"
@@ -21,6 +22,18 @@ func c05World(r *rand.Rand) (files map[string]string, element, food string, dept
 	nrec := 3 + r.Intn(12) // often > 8 recipes
 	names := gen.Names(r, nrec+8, gen.NameOpts{Slash: true, MaxLen: 6})
 	recipes, basics, unknown := names[:nrec], names[nrec:nrec+4], names[nrec+4:]
+	if r.Intn(3) == 0 {
+		// pairs of different names that a "natural", case-folding or normalising comparison takes for equal (digit
+		// runs that differ by leading zeros, letter case, doubled blanks, composed and decomposed accents): whatever
+		// order a report gives them, it is the same order every time
+		twins := [][2]string{{"vitamin B2", "vitamin B02"}, {"omega3", "omega03"}, {"Zinc", "zinc"}, {"a  b", "a b"}, {"caf\u00e9", "cafe\u0301"}, {"x-1", "x-01"}, {"E100", "E0100"}, {"fat ", "fat"}}
+		p, q := twins[r.Intn(len(twins))], twins[r.Intn(len(twins))]
+		p[0], p[1], q[0], q[1] = strings.TrimSpace(p[0]), strings.TrimSpace(p[1]), strings.TrimSpace(q[0]), strings.TrimSpace(q[1])
+		if p[0] != p[1] && q[0] != q[1] && p != q {
+			basics[1], basics[2] = p[0], p[1]
+			unknown[0], unknown[1] = q[0]+"/u", q[1]+"/u"
+		}
+	}
 	vals := []string{"1", "2", "1", "0.5"}
 	if r.Intn(6) == 0 {
 		// not-a-number and infinities are accepted by the parser: reports must still be deterministic
@@ -282,10 +295,43 @@ func runC05(c *core.Ctx) {
 			}
 		}
 	})
+	// the current date is an input like any other when it is given: the first instant of the calendar (the zero value
+	// of the time type) under a layout that shows fractions of a second - whatever replaced it would show
+	{
+		srv := pool.Servers[0]
+		layout := "2006/01/02 15:04:05.000000"
+		files := map[string]string{"food.yaml": "a/b:\n  x: 1\n", "log.yaml": "0001/01/01 00:00:00.000000:\n  a/b: 1\n2021/03/04 10:00:00.250000:\n  a/b: 2\n"}
+		srv.Write(files)
+		for _, cmd := range [][]string{{"stats"}, {"reg", "-e", "today"}, {"reg", "-b", "today"}, {"summary", "today"}, {"bal", "-b", "yesterday"}, {"print", "-b", "last7"}} {
+			for _, today := range []string{"0001/01/01 00:00:00.000000", "0001/01/01 00:00:00.000001"} {
+				args := append([]string{"--no-color", "-d", "food.yaml", "-l", "log.yaml", "--date-format", layout, "--today", today}, cmd...)
+				outcomes := map[string]int{}
+				for _, v := range srv.App(args, nil, 20) {
+					outcomes[fmt.Sprintf("exit=%d\nerr=%s\n%s", btoi(v.Exit != 0), strings.TrimSpace(v.ErrText()), v.Out)] += v.Count
+				}
+				for k := 0; k < 3; k++ {
+					v := run.Exec(c.HR, args, run.ExecOpts{Dir: srv.Dir})
+					outcomes[fmt.Sprintf("exit=%d\nerr=%s\n%s", btoi(v.Exit != 0), strings.TrimSpace(v.ErrText()), v.Out)]++
+				}
+				c.Eval(23)
+				c.Count("cases_with_the_first_instant_as_today", 1)
+				if len(outcomes) > 1 {
+					var ks []string
+					for k, cnt := range outcomes {
+						ks = append(ks, fmt.Sprintf("[%d runs] %s", cnt, clip(k, 500)))
+					}
+					sort.Strings(ks)
+					c.Violation(strings.Join(cmd[:min(2, len(cmd))], " ")+"|output-varies", fmt.Sprintf("%d different outcomes for identical inputs under --today %s: %s", len(outcomes), today, joinArgs(cmd)), caseDoc{Files: files, Args: args, Observed: ks})
+				}
+			}
+		}
+	}
 	// a report while another report - other files, other options - is alive in the same process
 	nestedReports(c, pool, c.N(200, 2500), nestedAnyShape)
 	// and requests served one after the other by one application value
 	reusedApp(c, pool, c.N(150, 2000), nestedAnyShape)
+	// and reports produced side by side in goroutines of one process, under the race detector
+	parallelReports(c, c.N(60, 800), nestedAnyShape)
 	jobs, deaths := pool.Stats()
 	c.Count("l2_jobs", jobs)
 	c.Count("l2_process_deaths", deaths)
